@@ -2,7 +2,7 @@
 bit and nothing else; the number of coin draws does not depend on coin outcomes; survivors are taken with stride 2 from an
 even-length run; merge combines error parameters with the right peers."""
 import json
-from astu import C, ctxt, gt_pair, eq_const, strip, strip_all, walk, walkp, txt, short, is_this_field, field_name, stmts_of, always_throws, functions_by, local_decls
+from astu import C, ctxt, gt_pair, eq_const, reach, reach_txt, ctext, strip, strip_all, walk, walkp, txt, short, is_this_field, field_name, stmts_of, always_throws, functions_by, local_decls
 from vlib.core import ob
 
 
